@@ -338,6 +338,19 @@ def vocab_dump(case):
     try:
         tok = make_tokeniser(c)
         line["cfg"] = observed_cfg(c, tok)
+        if idx % 2:
+            # history: the tokeniser was asked about tokens / ids outside its vocabulary before (it refuses them);
+            # the vocabulary is what it was
+            for foreign in (["val_24"], ["trk_01-pit_060-vel_127"], ["no-such-token"], ["rst_999", "pad"]):
+                try:
+                    tok.encode(foreign)
+                except Exception:
+                    pass
+            for ids in ([10 ** 7], [-5 - tok.dictionary_size]):
+                try:
+                    tok.decode(ids)
+                except Exception:
+                    pass
         line["size"] = tok.dictionary_size
         line["inverseSize"] = len(tok.inverse_dictionary)
         ents = []
